@@ -1387,7 +1387,8 @@ pub mod c16_api {
         let mut v = v;
         // SAFETY: `v` is a valid u64, which has no drop function.
         unsafe {
-            l.erased().contains_owned(NonNull::from_mut(&mut v).cast::<()>())
+            l.erased()
+                .contains_owned(NonNull::from_mut(&mut v).cast::<()>())
         }
     }
 }
